@@ -33,7 +33,13 @@ func (w *World) obsExpandOK(u *Unit, o types.Object, def ast.Expr, use *ast.Iden
 	w.obsUse[o] = false // re-entrancy: not while deciding
 	// the unit that declares the local decides (a function literal inherits the decision of its function)
 	du := u
-	if u.Body == nil || def.Pos() < u.Body.Pos() || def.End() > u.Body.End() {
+	inSplice := false
+	for _, ic := range u.G.Inlined {
+		if ic.Decl.Body.Pos() <= def.Pos() && def.End() <= ic.Decl.Body.End() {
+			inSplice = true
+		}
+	}
+	if !inSplice && (u.Body == nil || def.Pos() < u.Body.Pos() || def.End() > u.Body.End()) {
 		du = nil
 		if top, err := w.Unit(u.Fn.Name); err == nil {
 			for _, cand := range append([]*Unit{top}, top.Lits()...) {
